@@ -37,8 +37,15 @@ REQ_E = _H2_PRE + _H2_REQ1 + _H2_REQ3 + _h2f(6, 0, 0, bytes(8))
 _H2_RESP3 = _h2f(1, 5, 3, bytes([0x8d, 0x0f, 0x27, 5]) + b"quick")                        # 404, server: quick (static 54)
 _H2_RESP1 = _h2f(1, 5, 1, bytes([0x88, 0x0f, 0x27, 5]) + b"nginx")                        # 200, server: nginx
 RESP_E = _h2f(4, 0, 0, b"") + _H2_RESP3 + _H2_RESP1 + _h2f(0, 1, 1, b"body")
-HEADLEN = {REQ_E: len(_H2_PRE + _H2_REQ1), RESP_E: len(_h2f(4, 0, 0, b"") + _H2_RESP3)}
-PAIRS = [(REQ_A, RESP_A), (REQ_B, RESP_B), (REQ_C, RESP_C), (REQ_D, RESP_D), (REQ_E, RESP_E)]
+# HTTP/2 again: the client's header block begins with a dynamic-table-size update to 0 (its answer to a server that announced
+# SETTINGS_HEADER_TABLE_SIZE 0), the server's block inserts a field into its own dynamic table and refers to it (index 62) in the
+# same block.  Each direction has its own HPACK context: what the client's block does to the table says nothing about the server's
+_H2_REQF = _h2f(1, 5, 1, bytes([0x20, 0x82, 0x86, 0x84, 0x0f, 0x2b, 7]) + b"agent/2")
+REQ_F = _H2_PRE + _H2_REQF + _h2f(6, 0, 0, bytes(8))
+_H2_RESPF = _h2f(1, 4, 1, bytes([0x88, 0x40, 5]) + b"x-srv" + bytes([2]) + b"v1" + bytes([0xbe, 0x0f, 0x27, 5]) + b"nginx")
+RESP_F = _h2f(4, 0, 0, b"") + _H2_RESPF + _h2f(0, 1, 1, b"body-f")
+HEADLEN = {REQ_E: len(_H2_PRE + _H2_REQ1), RESP_E: len(_h2f(4, 0, 0, b"") + _H2_RESP3), REQ_F: len(_H2_PRE + _H2_REQF), RESP_F: len(_h2f(4, 0, 0, b"") + _H2_RESPF)}
+PAIRS = [(REQ_A, RESP_A), (REQ_B, RESP_B), (REQ_C, RESP_C), (REQ_D, RESP_D), (REQ_E, RESP_E), (REQ_F, RESP_F)]
 
 
 def head_only(m):
